@@ -67,6 +67,9 @@ type c04Scenario struct {
 	// cancellation
 	CancelAt int `json:"cancel_at"` // the replay context is cancelled just before the target processes its CancelAt-th request (0-based; -1 = never)
 	Bound    int `json:"bound"`
+	// damage under back-pressure
+	Tail  int  `json:"tail,omitempty"`  // > 0: the variant comes from the tail family (only the last Tail covered bytes / last 40 lengths are damaged)
+	Eager bool `json:"eager,omitempty"` // the target answers at once (keeps up with the parser); default: no request is processed before everything else is blocked
 }
 
 // ---------------------------------------------------------------------------
@@ -181,15 +184,26 @@ func (v c04Variant) String() string {
 
 // c04Variants: every truncation length, then every alteration of every byte that
 // the checksum covers (quick: the 8 one-bit flips, thorough: all 255 other values).
-func c04Variants(file []byte, tier string) []c04Variant {
+func c04Variants(file []byte, tier string, tail int) []c04Variant {
 	var out []c04Variant
-	for l := 0; l < len(file); l++ {
+	firstLen, firstPos := 0, 0
+	if tail > 0 {
+		// tail family: truncation at every length of the last 40 bytes (footer included) and
+		// alterations of the last `tail` bytes the checksum covers
+		if firstLen = len(file) - 40; firstLen < 0 {
+			firstLen = 0
+		}
+		if firstPos = len(file) - 8 - tail; firstPos < 0 {
+			firstPos = 0
+		}
+	}
+	for l := firstLen; l < len(file); l++ {
 		out = append(out, c04Variant{Trunc: l, Pos: -1})
 		if tier == "thorough" {
 			out = append(out, c04Variant{Trunc: l, ErrKind: "reset", Pos: -1})
 		}
 	}
-	for p := 0; p < len(file)-8; p++ {
+	for p := firstPos; p < len(file)-8; p++ {
 		if tier == "thorough" {
 			for d := 1; d < 256; d++ {
 				out = append(out, c04Variant{Trunc: -1, Pos: p, Val: int(file[p]) ^ d})
@@ -214,6 +228,7 @@ type c04ProbeIn struct {
 	Shard    int         `json:"shard"`
 	NShards  int         `json:"nshards"`
 	Start    int         `json:"start"`
+	Tail     int         `json:"tail"`
 	Progress string      `json:"progress"`
 	Result   string      `json:"result"`
 }
@@ -275,7 +290,7 @@ func TestVerifC04Probe(t *testing.T) {
 		rdb.VerifSetMaxBinEntryBuffer(in.Scn.ChunkAt)
 	}
 	defer rdb.VerifSetMaxBinEntryBuffer(old)
-	vars := c04Variants(built.File, in.Tier)
+	vars := c04Variants(built.File, in.Tier, in.Tail)
 	pf, err := os.OpenFile(in.Progress, os.O_CREATE|os.O_WRONLY, 0o644)
 	if err != nil {
 		t.Fatal(err)
@@ -355,13 +370,13 @@ type c04ProbeOut struct {
 }
 
 // c04Probe runs the child (restarting it after every death) over this shard's variants.
-func c04Probe(scn rdbScenario, tier string, idxBase, shard, nshards, n int) (*c04ProbeOut, error) {
+func c04Probe(scn rdbScenario, tier string, tail, idxBase, shard, nshards, n int) (*c04ProbeOut, error) {
 	dir := os.Getenv("VERIF_SCRATCH")
 	if dir == "" {
 		dir = os.TempDir()
 	}
 	out := &c04ProbeOut{class: make([]byte, n), stderr: map[int]string{}}
-	in := c04ProbeIn{Scn: scn, Tier: tier, IdxBase: idxBase, Shard: shard, NShards: nshards,
+	in := c04ProbeIn{Scn: scn, Tier: tier, Tail: tail, IdxBase: idxBase, Shard: shard, NShards: nshards,
 		Progress: filepath.Join(dir, "c04.progress"), Result: filepath.Join(dir, "c04.result")}
 	os.Remove(in.Result)
 	inPath := filepath.Join(dir, "c04.in.json")
@@ -507,6 +522,7 @@ func c04Exec(t *testing.T, scn c04Scenario, ch *mc.Chooser) mc.Result {
 		hooks := &rdbHooks{}
 		if scn.Mode == "damage" {
 			hooks.MaxReq = c04MaxReq
+			hooks.NoPark = scn.Eager
 		}
 		damaged := false
 		switch scn.Mode {
@@ -688,7 +704,35 @@ func runC04(t *testing.T, rep *mc.Reporter) {
 	mine := func() bool { idx++; return idx%nshards == shard && !budget.Expired() }
 
 	// ---- (a) damage
+	type dmg struct {
+		base  rdbScenario
+		tail  int
+		eager []bool
+	}
+	var plan []dmg
 	for _, base := range c04DamageSnapshots() {
+		plan = append(plan, dmg{base, 0, []bool{false}})
+	}
+	// (a2) damage near the end of multi-key snapshots while the pipes between parser,
+	// distributor and worker are full: RdbPipeSize 1 and 2, one worker, with a target that
+	// processes nothing until every goroutine of the tool is blocked (default stepping) and
+	// with a target that answers at once
+	for _, base := range c04FaultSnapshots() {
+		for _, ps := range []int{1, 2} {
+			for _, restore := range []bool{true, false} {
+				b := base
+				b.Cfg = rdbCfg{Restore: restore, BulkLen: c03BigBulk, Parallel: 1, DbMode: "id", Resume: true, PipeSize: ps}
+				plan = append(plan, dmg{b, 60, []bool{false, true}})
+			}
+		}
+		if tier == "thorough" {
+			b := base
+			b.Cfg = rdbCfg{Restore: true, BulkLen: c03BigBulk, Parallel: 2, DbMode: "id", Resume: true, PipeSize: 2, Bisync: true}
+			plan = append(plan, dmg{b, 60, []bool{false}})
+		}
+	}
+	for _, d := range plan {
+		base := d.base
 		if budget.Expired() {
 			break
 		}
@@ -697,69 +741,95 @@ func runC04(t *testing.T, rep *mc.Reporter) {
 			rep.Machinery("generator: "+err.Error(), nil)
 			return
 		}
-		vars := c04Variants(built.File, tier)
-		pr, err := c04Probe(base, tier, idx+1, shard, nshards, len(vars))
+		vars := c04Variants(built.File, tier, d.tail)
+		// the probe only looks at the bytes: its shard filter follows the first pass over the variants
+		pr, err := c04Probe(base, tier, d.tail, idx+1, shard, nshards, len(vars))
 		if err != nil {
 			rep.Machinery("probe: "+err.Error(), nil)
 			return
 		}
 		rep.Count("probe_children", int64(pr.spawned))
-		for i, v := range vars {
-			if !mine() {
-				continue
-			}
-			scn := c04Scenario{rdbScenario: base, Mode: "damage", Trunc: v.Trunc, ErrKind: v.ErrKind, Pos: v.Pos, Val: v.Val, CancelAt: -1}
-			det := map[string]interface{}{"variant": v.String(), "rdb_hex": fmt.Sprintf("%x", built.File), "damaged_hex": fmt.Sprintf("%x", v.apply(built.File))}
-			switch pr.class[i] {
-			case 0:
-				rep.Machinery(fmt.Sprintf("probe child skipped variant %d of %s", i, base.Keys[0].Case), nil)
-				return
-			case 'X':
-				det["child_stderr"] = pr.stderr[i]
-				det["address_space_limit_kib"] = c04ProbeLimit
-				rep.Scenario()
-				if n, ok := c04AllocRequest(pr.stderr[i]); ok {
-					det["allocation_request_bytes"] = n
-					if n < c04CrashAlloc {
-						// refused only because of the probe's own address-space limit: counted, not judged
-						rep.Count("huge_alloc_variants", 1)
-						rep.Exec(scn, nil, mc.OK(mc.Hash("huge-alloc", base.Keys[0].Case, v.String()), true, 0))
-						continue
-					}
-					rep.Exec(scn, nil, mc.Violation("parsing a damaged snapshot asks for a terabyte-sized allocation, which kills the process", "C04:damage:crash-out-of-memory", det))
+		for pass, eager := range d.eager {
+			for i, v := range vars {
+				var take bool
+				if pass == 0 {
+					take = mine()
+				} else {
+					// later passes run the variants the first pass (and therefore the probe) covered in this shard
+					take = pr.class[i] != 0 && !budget.Expired()
+				}
+				if !take {
 					continue
 				}
-				rep.Exec(scn, nil, mc.Violation("parsing a damaged snapshot kills the process", "C04:damage:crash", det))
-				continue
-			case 'R':
-				rep.Scenario()
-				det["commands_before_giving_up"] = c04MaxCmds
-				rep.Exec(scn, nil, mc.Violation("one entry of a damaged snapshot expands into an unbounded stream of commands (the replay would never end)", "C04:damage:runaway-commands", det))
-				continue
-			case 'S':
-				det["child_stderr"] = pr.stderr[i]
-				rep.Scenario()
-				det["objects_allocated_before_giving_up"] = c04MaxObjects
-			rep.Exec(scn, nil, mc.Violation("a decoder loops without end on a damaged snapshot (the replay worker would spin for ever and Send never return)", "C04:damage:endless-loop", det))
-				continue
-			case 'b', 'B':
-				// more than 64 MiB allocated for a tiny input, but the parse came back: an
-				// observation, not run again in this process
-				rep.Count("big_alloc_variants", 1)
-				rep.Scenario()
-				r := mc.OK(mc.Hash("big-alloc", base.Keys[0].Case, v.String()), true, 0)
-				rep.Exec(scn, nil, r)
-				continue
-			}
-			res := mc.RunScenario(rep, scn, 0, budget, func(ch *mc.Chooser) mc.Result {
-				r := c04Exec(t, scn, ch)
-				if r.Verdict == "ok" && r.Detail == "accepted-complete" {
-					rep.Count("damage_accepted_but_complete", 1)
-					r.Detail = nil
+				scn := c04Scenario{rdbScenario: base, Mode: "damage", Trunc: v.Trunc, ErrKind: v.ErrKind, Pos: v.Pos, Val: v.Val, CancelAt: -1, Tail: d.tail, Eager: eager}
+				det := map[string]interface{}{"variant": v.String(), "rdb_hex": fmt.Sprintf("%x", rdbClip(built.File)), "damaged_hex": fmt.Sprintf("%x", rdbClip(v.apply(built.File)))}
+				if d.tail == 0 {
+					det["rdb_hex"], det["damaged_hex"] = fmt.Sprintf("%x", built.File), fmt.Sprintf("%x", v.apply(built.File))
 				}
-				return r
-			})
-			_ = res
+				switch pr.class[i] {
+				case 0:
+					rep.Machinery(fmt.Sprintf("probe child skipped variant %d of %s", i, base.Keys[0].Case), nil)
+					return
+				case 'X':
+					if pass > 0 {
+						continue
+					}
+					det["child_stderr"] = pr.stderr[i]
+					det["address_space_limit_kib"] = c04ProbeLimit
+					rep.Scenario()
+					if n, ok := c04AllocRequest(pr.stderr[i]); ok {
+						det["allocation_request_bytes"] = n
+						if n < c04CrashAlloc {
+							// refused only because of the probe's own address-space limit: counted, not judged
+							rep.Count("huge_alloc_variants", 1)
+							rep.Exec(scn, nil, mc.OK(mc.Hash("huge-alloc", base.Keys[0].Case, v.String()), true, 0))
+							continue
+						}
+						rep.Exec(scn, nil, mc.Violation("parsing a damaged snapshot asks for a terabyte-sized allocation, which kills the process", "C04:damage:crash-out-of-memory", det))
+						continue
+					}
+					rep.Exec(scn, nil, mc.Violation("parsing a damaged snapshot kills the process", "C04:damage:crash", det))
+					continue
+				case 'R':
+					if pass > 0 {
+						continue
+					}
+					rep.Scenario()
+					det["commands_before_giving_up"] = c04MaxCmds
+					rep.Exec(scn, nil, mc.Violation("one entry of a damaged snapshot expands into an unbounded stream of commands (the replay would never end)", "C04:damage:runaway-commands", det))
+					continue
+				case 'S':
+					if pass > 0 {
+						continue
+					}
+					det["child_stderr"] = pr.stderr[i]
+					rep.Scenario()
+					det["objects_allocated_before_giving_up"] = c04MaxObjects
+					rep.Exec(scn, nil, mc.Violation("a decoder loops without end on a damaged snapshot (the replay worker would spin for ever and Send never return)", "C04:damage:endless-loop", det))
+					continue
+				case 'b', 'B':
+					if pass > 0 {
+						continue
+					}
+					// more than 64 MiB allocated for a tiny input, but the parse came back: an
+					// observation, not run again in this process
+					rep.Count("big_alloc_variants", 1)
+					rep.Scenario()
+					rep.Exec(scn, nil, mc.OK(mc.Hash("big-alloc", base.Keys[0].Case, v.String()), true, 0))
+					continue
+				}
+				if d.tail > 0 {
+					rep.Count("tail_damage_executions", 1)
+				}
+				mc.RunScenario(rep, scn, 0, budget, func(ch *mc.Chooser) mc.Result {
+					r := c04Exec(t, scn, ch)
+					if r.Verdict == "ok" && r.Detail == "accepted-complete" {
+						rep.Count("damage_accepted_but_complete", 1)
+						r.Detail = nil
+					}
+					return r
+				})
+			}
 		}
 	}
 
